@@ -9,7 +9,7 @@ if __package__ is None or __package__ == "":
 
 from ..utils import trace as logging
 from ..utils.argument_parser import ArgumentParser
-from ..utils.log import extract_fusion_engine_log, find_log_file, CANDIDATE_LOG_FILES, DEFAULT_LOG_BASE_DIR
+from ..utils.log import extract_fusion_engine_log, find_log_file, CANDIDATE_MIXED_FILES, DEFAULT_LOG_BASE_DIR
 
 
 def main():
@@ -54,7 +54,7 @@ Extract FusionEngine message contents from a binary file containing mixed data
     # Locate the input file and set the output directory.
     try:
         if options.candidate_files is None:
-            candidate_files = CANDIDATE_LOG_FILES
+            candidate_files = CANDIDATE_MIXED_FILES
         else:
             candidate_files = options.candidate_files.split(',')
 
